@@ -1,11 +1,11 @@
 (* Pinned statements for C03: compiled on every check run. A statement weakened in Props/ fails here. *)
 From Coq Require Import String List Bool.
-From TS Require Import Model.Str Model.Outcome Model.Unicode Model.Syntax Model.Attrs Model.Types Model.Parse
+From TS Require Import Model.Str Model.Outcome Model.Unicode Model.Syntax Model.Attrs Model.Types Model.Parse Model.Reconcile
                        Model.Lang.Common Model.Lang.Decl Model.Lang.TypeScript Model.Lang.Kotlin Model.Lang.Swift
                        Model.Lang.Scala Model.Lang.Go Model.Lang.Python.
 From TS Require Import Spec.Serde Spec.TargetOsRule Spec.C03Spec.
 From TS Require Proofs.FrontItems Proofs.C03 Proofs.C03_TS Proofs.C03_Kotlin Proofs.C03_Swift Proofs.C03_Scala Proofs.C03_Go
-                Proofs.C03_Python Proofs.C03_Witness Proofs.C03Src.
+                Proofs.C03_Python Proofs.C03_Witness Proofs.C03Src Proofs.C03E2E Proofs.C03_All.
 Import ListNotations.
 Definition parse_leaf (uc : unicode) (tstr : str -> option ty) (T : list str) (it : item) : outcome ritem :=
   match it with
@@ -146,3 +146,51 @@ Goal exists pd fd, dom_C03_file pd = true /\ known_C03_file uc_exec Python pd = 
                 py_file_decls uc_exec Proofs.C03_Witness.c03_py_cfg pd = Ok fd /\ good_C03_file Python pd fd = false.
 Proof. exact Props.C03.C03_python_typekey_collision_refuted. Qed.
 Print Assumptions Props.C03.C03_python_typekey_collision_refuted.
+Goal forall (uc : unicode), unicode_ok uc -> forall (tstr : str -> option ty) (T : list str) (cfg : ts_config)
+    (f : file) (pd : parsed) (cn : str) (rn : renames) (fd : file_decls),
+  dom_C03_src_file T f = true -> known_C03_src_file uc T TypeScript f = None ->
+  parse_file uc tstr T f = Ok (Some pd) -> p_errors pd = [] ->
+  ts_file_decls uc cfg (reconcile_crate rn cn pd) = Ok fd ->
+  good_C03_src_file uc T TypeScript f (map c03_sig_of (fd_decls fd)) = true.
+Proof. exact Props.C03.C03_end_to_end_TypeScript. Qed.
+Print Assumptions Props.C03.C03_end_to_end_TypeScript.
+Goal forall (uc : unicode), unicode_ok uc -> forall (tstr : str -> option ty) (T : list str) (cfg : kt_config)
+    (f : file) (pd : parsed) (cn : str) (rn : renames) (fd : file_decls),
+  dom_C03_src_file T f = true -> known_C03_src_file uc T Kotlin f = None ->
+  parse_file uc tstr T f = Ok (Some pd) -> p_errors pd = [] ->
+  kt_file_decls uc cfg (reconcile_crate rn cn pd) = Ok fd ->
+  good_C03_src_file uc T Kotlin f (map c03_sig_of (fd_decls fd)) = true.
+Proof. exact Props.C03.C03_end_to_end_Kotlin. Qed.
+Print Assumptions Props.C03.C03_end_to_end_Kotlin.
+Goal forall (uc : unicode), unicode_ok uc -> forall (tstr : str -> option ty) (T : list str) (cfg : sw_config)
+    (f : file) (pd : parsed) (cn : str) (rn : renames) (fd : file_decls),
+  dom_C03_src_file T f = true -> known_C03_src_file uc T Swift f = None ->
+  parse_file uc tstr T f = Ok (Some pd) -> p_errors pd = [] ->
+  sw_file_decls uc cfg (reconcile_crate rn cn pd) = Ok fd ->
+  good_C03_src_file uc T Swift f (map c03_sig_of (fd_decls fd)) = true.
+Proof. exact Props.C03.C03_end_to_end_Swift. Qed.
+Print Assumptions Props.C03.C03_end_to_end_Swift.
+Goal forall (uc : unicode), unicode_ok uc -> forall (tstr : str -> option ty) (T : list str) (cfg : sc_config)
+    (f : file) (pd : parsed) (cn : str) (rn : renames) (fd : file_decls),
+  dom_C03_src_file T f = true -> known_C03_src_file uc T Scala f = None ->
+  parse_file uc tstr T f = Ok (Some pd) -> p_errors pd = [] ->
+  sc_file_decls uc cfg (reconcile_crate rn cn pd) = Ok fd ->
+  good_C03_src_file uc T Scala f (map c03_sig_of (fd_decls fd)) = true.
+Proof. exact Props.C03.C03_end_to_end_Scala. Qed.
+Print Assumptions Props.C03.C03_end_to_end_Scala.
+Goal forall (uc : unicode), unicode_ok uc -> forall (tstr : str -> option ty) (T : list str) (cfg : go_config)
+    (f : file) (pd : parsed) (cn : str) (rn : renames) (fd : file_decls),
+  dom_C03_src_file T f = true -> known_C03_src_file uc T Go f = None ->
+  parse_file uc tstr T f = Ok (Some pd) -> p_errors pd = [] ->
+  go_file_decls uc cfg (reconcile_crate rn cn pd) = Ok fd ->
+  good_C03_src_file uc T Go f (map c03_sig_of (fd_decls fd)) = true.
+Proof. exact Props.C03.C03_end_to_end_Go. Qed.
+Print Assumptions Props.C03.C03_end_to_end_Go.
+Goal forall (uc : unicode), unicode_ok uc -> forall (tstr : str -> option ty) (T : list str) (cfg : py_config)
+    (f : file) (pd : parsed) (cn : str) (rn : renames) (fd : file_decls),
+  dom_C03_src_file T f = true -> known_C03_src_file uc T Python f = None ->
+  parse_file uc tstr T f = Ok (Some pd) -> p_errors pd = [] ->
+  py_file_decls uc cfg (reconcile_crate rn cn pd) = Ok fd ->
+  good_C03_src_file uc T Python f (map c03_sig_of (fd_decls fd)) = true.
+Proof. exact Props.C03.C03_end_to_end_Python. Qed.
+Print Assumptions Props.C03.C03_end_to_end_Python.
